@@ -2,6 +2,7 @@
 import numpy as np
 
 from .. import em_util as eu
+from . import c02
 from ..core import Fail, Skip, oracle
 from ..lean import fbits, cbits, parse_floats, run_driver
 
@@ -24,8 +25,149 @@ CBMM_MIN_PERTURBATION = 1e-4  # below: Bingham concentrations > 1e8, normaliser/
 
 
 # ----------------------------------------------------------------------------- correspondence
+# The Em model (lean/PbBss/Model/Em.lean) the C03 theorems are about is tied to the code on C03's OWN domain:
+# separable scenes, blurred true start, iterate i of the real trainer -> driver_em -> one model EM step, compared with
+# the code's iterate i + 1 by C02's step-wise machinery, plus the arg-max class of the model E-step against the code's.
+CORR_FAMILIES = ['cwmm', 'cacgmm', 'gmm-spherical', 'gmm-diagonal']
+TIE_MARGIN = 1e-9
+
+
+def _corr_level(rng, family):
+    """perturbation level of a correspondence scene (never exactly 0: the Gaussian families have no density there)"""
+    if family.startswith('gmm-'):
+        return float(10 ** rng.uniform(-6, -2))
+    # cWMM / cACGMM: below ~3e-3 the Watson concentration sits at max_concentration and the smallest cACG eigenvalue
+    # approaches the floor (c02's guards); most cases are drawn where a good share is guard-free, the rest below
+    if rng.random() < 0.75:
+        return float(10 ** rng.uniform(np.log10(3e-3), -2))
+    return float(10 ** rng.uniform(-6, np.log10(3e-3)))
+
+
+def _corr_scene(rng, family):
+    """one separable scene in the layout c02._line / c02._compare expect (leading axis F, flat observations)"""
+    gauss = family.startswith('gmm-')
+    K = int(rng.integers(2, 5))
+    D = int(rng.integers(K, 9))
+    F = (1 if rng.random() < 0.7 else 2) if gauss else 1
+    sizes = [int(rng.integers(D + 2, 2 * D + 7)) for _ in range(K)]
+    N = int(sum(sizes))
+    labels = np.stack([rng.permutation(np.concatenate([[k] * n for k, n in enumerate(sizes)])) for _ in range(F)])
+    level = _corr_level(rng, family)
+    maxcos = 0.0 if rng.random() < 0.15 else 0.3
+    if gauss:
+        proto = eu.prototypes(rng, K, D, maxcos, False)[0]                                   # (K, D) shared means
+        y = proto[labels] + level * rng.normal(size=(F, N, D))
+        gain_kind = 'none'
+    else:
+        proto = np.stack([eu.prototypes(rng, K, D, maxcos, True)[0] for _ in range(F)])     # (F, K, D)
+        gain_kind = str(rng.choice(['moderate', 'wide', 'unit']))
+        span = {'moderate': 3.0, 'wide': 60.0, 'unit': 0.0}[gain_kind]
+        gains = np.exp(rng.uniform(-span, span, size=(F, N))) * np.exp(2j * np.pi * rng.random((F, N)))
+        y = np.take_along_axis(proto, labels[..., None], axis=1) + level * np.sqrt(2) * eu.cnormal(rng, F, N, D)
+        y = y * gains[..., None]
+    truth = np.moveaxis(np.eye(K)[labels], -1, -2)                                           # (F, K, N)
+    bkind = str(rng.choice(['none', 'dirichlet', 'dirichlet', 'uniform-leak']))
+    b = 0.0 if bkind == 'none' else float(rng.uniform(0, 0.5))
+    other = (np.moveaxis(rng.dirichlet(np.ones(K), size=(F, N)), -1, -2) if bkind == 'dirichlet'
+             else np.full((F, K, N), 1.0 / K))
+    init = (1 - b) * truth + b * other
+    if not np.array_equal(np.argmax(init, axis=-2), labels):     # blur must keep the true class the largest
+        init = 0.75 * truth + 0.25 * other
+    wca = (-1,) if rng.random() < 0.7 else -2
+    opts = {'weight_constant_axis': list(wca) if isinstance(wca, tuple) else wca, 'saliency': None}
+    if family == 'cacgmm':
+        opts['covariance_norm'] = 'eigenvalue' if rng.random() < 0.7 else ['trace', False][int(rng.integers(2))]
+        opts['affiliation_eps'] = 0.0          # the Em model has no posterior clipping (public predict() has none either)
+    i = int(rng.integers(1, 20))               # code iterate i is stepped to i + 1 <= 20
+    return dict(family=family, F=F, K=K, D=D, N=N, wca=wca, y=y, init=init, opts=opts, i=i, saliency='none',
+                labels=labels, level=level, maxcos=maxcos, blur=bkind, gains=gain_kind)
+
+
+def _argmax_compare(ctx, c, m, post_model, guard):
+    """arg-max class of the model E-step vs. the code's, per observation: exact; a mismatch whose decision margin
+    (largest minus second largest posterior of the code) is below 1e-9 is counted as a tie within rounding"""
+    family, F, K, N = c['family'], c['F'], c['K'], c['N']
+    fam = eu.FAMILIES[family]
+    post_code = c02._flat_kn(fam.predict(m, {'y': c['y']}), F, K, N)
+    post_model = np.asarray(post_model).reshape(K, F * N)
+    a_code = np.argmax(post_code, axis=0)
+    a_model = np.argmax(post_model, axis=0)
+    bad = np.flatnonzero(a_code != a_model)
+    srt = np.sort(post_code, axis=0)
+    margin = srt[-1] - srt[-2]
+    real_bad = [int(n) for n in bad if margin[n] >= TIE_MARGIN]
+    for _ in range(len(bad) - len(real_bad)):
+        ctx.count('tie-within-rounding:argmax')
+    tag = f'{family} K={K} D={c["D"]} N={N} F={F} level={c["level"]:.2e} i={c["i"]} guard={guard}'
+    detail = f'{tag}: {F * N} observations, {len(real_bad)} arg-max mismatches'
+    if real_bad:
+        n = real_bad[0]
+        detail += f', e.g. observation {n}: model {post_model[:, n].tolist()} vs code {post_code[:, n].tolist()}'
+    ctx.corr(f'argmax[{family}]', not real_bad, detail, {k: c[k] for k in ('y', 'init', 'opts', 'i')})
+    ctx.count('corr-argmax-observations', F * N)
+    ctx.count('corr-argmax-equals-truth', int(np.sum(a_code == c['labels'].reshape(-1))))
+    return post_code
+
+
 def corr(ctx):
-    pass
+    rng = ctx.rng
+    n = ctx.n(40, 600)
+    cases, lines, models = [], [], []
+    for j in range(n):
+        if ctx.out_of_time(30):
+            ctx.note(f'correspondence stopped after {j} scenes (time budget)')
+            break
+        family = CORR_FAMILIES[j % len(CORR_FAMILIES)]
+        c = _corr_scene(rng, family)
+        fam = eu.FAMILIES[family]
+        try:
+            m = fam.fit({'y': c['y']}, c['init'], c['i'], c['opts'])
+            m_next = fam.fit({'y': c['y']}, c['init'], c['i'] + 1, c['opts'])
+        except ValueError as ex:
+            if eu.is_singular_covariance_rejection(ex):
+                ctx.count(f'corr-skip-singular-covariance:{family}')
+                continue
+            raise
+        guard = fam.mstep_guard(m, c['opts']) or fam.mstep_guard(m_next, c['opts'])
+        cases.append(c)
+        models.append((m, m_next, guard))
+        lines.append(c02._line(c, m))
+        ctx.count(f'corr-family:{family}')
+        ctx.count(f'corr-guard:{family}:{guard}')
+        ctx.count(f'corr-wca:{c["wca"]}')
+        ctx.count(f'corr-K:{c["K"]}')
+        ctx.count('corr-level:1e%d' % int(np.floor(np.log10(c['level']))))
+    outs = run_driver(lines, exe='driver_em')
+    for c, (m, m_next, guard), out in zip(cases, models, outs):
+        family = c['family']
+        if out.strip() == 'bad-op':
+            ctx.corr(f'driver[{family}]', False, 'driver answered bad-op')
+            continue
+        g = c02._groups(out)
+        if guard is None:
+            # log-likelihood, E-step, weights, M-step of the family: exactly C02's step-wise comparison
+            c02._compare(ctx, c, m, m_next, out)
+            if family.startswith('gmm-'):
+                # c02 compares the covariance with an absolute scale >= 1; near-noise-free classes have variances down
+                # to 1e-12, so here additionally relative to the largest variance of the model
+                cov = np.asarray(m_next.gaussian.covariance, dtype=np.float64)
+                got = g[4].reshape(cov.shape)
+                err = float(np.max(np.abs(got - cov)))
+                ctx.corr(f'mstep-covariance-relative[{family}]', err <= 1e-7 * float(np.max(np.abs(cov))),
+                         f'{family} level={c["level"]:.2e} i={c["i"]}: max abs diff {err:.3e}, largest variance '
+                         f'{float(np.max(np.abs(cov))):.3e}', {k: c[k] for k in ('y', 'init', 'opts', 'i')})
+        post_code = _argmax_compare(ctx, c, m, g[1], guard)
+        if guard is not None:
+            # a guard (concentration clipped at max_concentration / eigenvalue at the floor) shaped the code's M-step,
+            # which the step-wise comparison of C02 excludes; the E-step of the code's iterate does not depend on it
+            ok, d = c02._close(g[1].reshape(post_code.shape), post_code, scale=1.0)
+            ctx.corr(f'eStep-guarded[{family}]', ok, f'{family} level={c["level"]:.2e} i={c["i"]} guard={guard}: {d}',
+                     {k: c[k] for k in ('y', 'init', 'opts', 'i')})
+    if cases:
+        c = cases[0]
+        ctx.sample({'op': 'em-step-on-separable-scene', 'family': c['family'], 'K': c['K'], 'D': c['D'], 'N': c['N'],
+                    'F': c['F'], 'level': c['level'], 'maxcos': c['maxcos'], 'blur': c['blur'], 'gains': c['gains'],
+                    'wca': str(c['wca']), 'iterate': c['i']})
 
 
 # ----------------------------------------------------------------------------- oracle on the real code
